@@ -19,8 +19,10 @@ RULE = ("seeded well-typed projects (pylib/isogen.py profiles core/plain/keys: g
         "refinements, client-field arguments) are compiled with the real isograph_cli and must be accepted (exit 0); from "
         "each, single-fault mutants (pylib/isomut.py: exactly one of undefined field, object field without selection set, "
         "scalar with selection set, undefined argument, missing required argument on scalar/object/client field, "
-        "undeclared variable (also inside an object literal), unused variable, literal of wrong type (also null for "
-        "non-null, also inside an object literal), variable of incompatible type (nullability, other scalar, list depth), "
+        "undeclared variable (also inside an object literal, also one that ANOTHER declaration declares), unused variable "
+        "(also one whose name another declaration uses), literal of wrong type (also null for "
+        "non-null, also inside an object literal), variable of incompatible type (nullability, nullable with a non-null "
+        "default while a parent passes null, other scalar, list depth), "
         "duplicate response name (alias equal to another key, same field twice); sites chosen so that no second rule is "
         "broken) are compiled and must be rejected: exit != 0 with a diagnostic. Non-trivial: a mutant whose base project "
         "was accepted; distinct by (fault kind, position kind, mutated declaration text hash).")
